@@ -95,6 +95,16 @@ def _map_inst(job):
     xx = np.asarray(mp_.forward(np.asarray(mp_.backward(x.copy()))))
     if not np.allclose(xx, x, rtol=1e-12, atol=1e-12):
         notes.append("forward(backward(x)) is not x")
+    # whole-numbered input (integer dtype) is legal input
+    ci = np.array([1, 2, 5, 10, 1000])
+    xi = np.asarray(mp_.forward(ci))
+    if not np.allclose(xi, _own_fwd(m, ci.astype(float)), rtol=1e-13,
+                       atol=1e-13):
+        notes.append("forward of integer-valued conductivities differs from "
+                     "the definition of the mapping")
+    if not np.allclose(np.asarray(mp_.backward(np.asarray(_own_fwd(
+            m, ci.astype(float))))), ci, rtol=1e-13, atol=0):
+        notes.append("backward(forward(integer sigma)) is not sigma")
     grad = rng.standard_normal(c.size)
     gin = grad.copy()
     ret = mp_.derivative_chain(gin, x.copy())
